@@ -3,6 +3,7 @@ package verifsim
 import (
 	"context"
 	"fmt"
+	"runtime"
 	"strconv"
 	"strings"
 	"sync"
@@ -31,6 +32,7 @@ type ExecInfo struct {
 	Dir     string
 	Env     map[string]string
 	StartAt time.Duration
+	GID     int64 // goroutine that runs the command (= the goroutine of the task execution)
 	// progress, owned by the controller
 	ChunkPos int
 	// filled by the handler
@@ -59,6 +61,23 @@ func (pl *procLayer) nextOcc(id string) int {
 	k := pl.occ[id]
 	pl.occ[id] = k + 1
 	return k
+}
+
+// curGID returns the id of the calling goroutine (parsed from its stack header); used only to
+// attribute context hook commands to the task execution whose goroutine runs them.
+func curGID() int64 {
+	var buf [64]byte
+	n := runtime.Stack(buf[:], false)
+	// "goroutine 123 ["
+	var id int64
+	for i := len("goroutine "); i < n; i++ {
+		ch := buf[i]
+		if ch < '0' || ch > '9' {
+			break
+		}
+		id = id*10 + int64(ch-'0')
+	}
+	return id
 }
 
 func parseSimArgs(args []string) (owner, block string, idx int, ok bool) {
@@ -97,6 +116,7 @@ func (pl *procLayer) Handler(ctx context.Context, args []string) error {
 	info.ID = execID(owner, block, idx, info.Var)
 	info.Key = fmt.Sprintf("%s#%d", info.ID, pl.nextOcc(info.ID))
 	info.StartAt = c.Now()
+	info.GID = curGID()
 	if dl, ok := ctx.Deadline(); ok {
 		info.HasTimeout = true
 		info.Deadline = dl.Sub(c.T0)
